@@ -1,5 +1,5 @@
 import Pyrtma.Drv.Util
-import Pyrtma.Spec.Validators
+import Pyrtma.Spec.ValidatorsExt
 /-! Line-protocol driver for M4 (grammar: harness/valid_corr.py). -/
 namespace Pyrtma.Drv.Validators
 open Pyrtma.Validators Pyrtma.Drv
@@ -89,6 +89,16 @@ def showErr : PyErr → String
   | .typeError => "TypeError" | .valueError => "ValueError" | .overflowError => "OverflowError"
   | .indexError => "IndexError" | .attributeError => "AttributeError"
 
+def showScalar : Scalar → String
+  | .int n => s!"i:{n}"
+  | .bool b => if b then "b:1" else "b:0"
+  | .flt b => s!"f:{b}"
+  | .str cs => "s:" ++ String.intercalate "." (cs.map toString)
+  | .bytes bs => "y:" ++ showHex bs
+  | .other => "o"
+  | .cdata _ raw => "c:" ++ showHex raw
+  | .strct t raw => s!"t:{t}:" ++ showHex raw
+
 structure Case where
   id : String := ""
   en : Bool := true
@@ -100,6 +110,10 @@ structure Case where
   obs : List String := []
   out : Bool := false
   rb : List Scalar := []
+  /-- the whole top-level message: offset of the field, bytes before, bytes after (`MSG` line) -/
+  moff : Option Nat := none
+  mpre : Bytes := []
+  mpost : Bytes := []
   -- context-manager cases
   isCtx : Bool := false
   evs : List CtxEv := []
@@ -123,7 +137,21 @@ def finishSet (c : Case) : List String :=
       | some cl => "fail " ++ cl
       | none => "ok"
   let tag := (if inDom c.ty c.key c.val then "dom" else "bad") ++ (if raised then "-refused" else "-accepted")
-  [corr, s!"{c.id} PROP C09 {prop}", s!"{c.id} PROP TAG {tag}"]
+  -- projection `readField`: the model's `__get__` / `__getitem__` on the bytes the implementation left behind
+  let rbm := readField c.ty c.key c.post
+  let sameRb := rbm.length == c.rb.length && (rbm.zip c.rb).all fun p => sameRead p.1 p.2
+  let corrRb :=
+    if raised || sameRb then [] else
+      [s!"{c.id} CORR diff [readField] model=[{joinSp (rbm.map showScalar)}] impl=[{joinSp (c.rb.map showScalar)}]"]
+  -- projection `message`: the assignment seen from the whole top-level object (`setAt`)
+  let corrMsg :=
+    match c.moff with
+    | none => []
+    | some off =>
+      let r := setAt c.en c.mpre off c.ty c.key c.val
+      if r.1 == c.mpost then [] else
+        [s!"{c.id} CORR diff [message] off={off} model=[{showHex r.1}] impl=[{showHex c.mpost}]"]
+  [corr] ++ corrRb ++ corrMsg ++ [s!"{c.id} PROP C09 {prop}", s!"{c.id} PROP TAG {tag}"]
 
 def showFlags (l : List Bool) : String := joinSp (l.map fun b => if b then "1" else "0")
 
@@ -147,6 +175,7 @@ def step (st : Case × List String) (line : String) : Case × List String :=
   | "OBS" :: r => ({ c with obs := r }, out)
   | ["OUT", b] => ({ c with out := b == "1" }, out)
   | "RB" :: r => ({ c with rb := r.map scalarOf }, out)
+  | ["MSG", off, pre, post] => ({ c with moff := some (natOf off), mpre := hexBytes pre, mpost := hexBytes post }, out)
   | "EV" :: r => ({ c with evs := r.map evOf }, out)
   | "FLAGS" :: r => ({ c with flags := r.map (· == "1") }, out)
   | ["END"] => ({}, out ++ (if c.isCtx then finishCtx c else finishSet c))
